@@ -387,9 +387,9 @@ pub fn route_public(case: &Case, p: &Probes, rng: &mut Rng, decoys: &[Arc<Vec<u8
         world.lock().apply(&Admin::Wait(1_000_000_000 + rng.below(3_000_000_000)), None);
     }
     world.begin_conv(0, 100, &[], &none);
-    let inst_req: Vec<(Api, i64)> = p.instants.iter().enumerate().map(|(k, &u)| (UTC_APIS[k % 4], u)).collect();
+    let inst_req: Vec<(Api, i64)> = p.instants.iter().enumerate().map(|(k, &u)| (UTC_APIS[k % UTC_APIS.len()], u)).collect();
     let inst = w.batch(inst_req)?;
-    let wall_req: Vec<(Api, i64)> = p.walls.iter().enumerate().map(|(k, &t)| (LOCAL_APIS[k % 4], t)).collect();
+    let wall_req: Vec<(Api, i64)> = p.walls.iter().enumerate().map(|(k, &t)| (LOCAL_APIS[k % LOCAL_APIS.len()], t)).collect();
     let wall = w.batch(wall_req)?;
     let rt_req: Vec<(Api, i64)> = p
         .instants
@@ -397,7 +397,7 @@ pub fn route_public(case: &Case, p: &Probes, rng: &mut Rng, decoys: &[Arc<Vec<u8
         .zip(&inst)
         .enumerate()
         .map(|(k, (&u, r))| match r {
-            Res::Single(o) => (LOCAL_APIS[(k + 1) % 4], u + *o as i64),
+            Res::Single(o) => (LOCAL_APIS[(k + 1) % LOCAL_APIS.len()], u + *o as i64),
             _ => (Api::FromLocal, u),
         })
         .collect();
@@ -409,11 +409,11 @@ pub fn route_public(case: &Case, p: &Probes, rng: &mut Rng, decoys: &[Arc<Vec<u8
     for k in 0..n {
         let t = if k % 2 == 0 { p.instants[k] } else { p.walls[k] };
         if k % 4 < 2 {
-            mixed_req.push((UTC_APIS[k % 4], t));
-            mixed_req.push((LOCAL_APIS[k % 4], t));
+            mixed_req.push((UTC_APIS[k % UTC_APIS.len()], t));
+            mixed_req.push((LOCAL_APIS[k % LOCAL_APIS.len()], t));
         } else {
-            mixed_req.push((LOCAL_APIS[k % 4], t));
-            mixed_req.push((UTC_APIS[k % 4], t));
+            mixed_req.push((LOCAL_APIS[k % LOCAL_APIS.len()], t));
+            mixed_req.push((UTC_APIS[k % UTC_APIS.len()], t));
         }
     }
     let mixed = w.batch(mixed_req.clone())?;
